@@ -88,8 +88,8 @@ func genDelta(r *Rng, big bool) uint64 {
 }
 
 var oldSelectors = []string{"cur", "zero", "sub", "sub+1", "cur+1", "cur-1", "abs", "max", "2^63"}
-var proofSelectors = []string{"honest", "empty", "honest_old", "trunk", "othersizes", "flip", "drop", "add", "addfront", "dup", "swap", "badlen", "random", "roots", "nil"}
-var sigMutations = []string{"wrongkey", "wrongkey_samename", "forgedhash", "nosig", "badsig", "flipbody", "trunc", "bytes", "otherorigin", "origin_prefix", "origin_case", "crosslog", "unknownlog"}
+var proofSelectors = []string{"honest", "empty", "honest_old", "trunk", "othersizes", "flip", "drop", "add", "addfront", "dup", "swap", "badlen", "random", "roots", "nil", "prepend_old_root", "append_new_root", "prepend_new_root", "append_old_root"}
+var sigMutations = []string{"wrongkey", "wrongkey_samename", "forgedhash", "nosig", "badsig", "flipbody", "trunc", "bytes", "otherorigin", "origin_prefix", "origin_case", "origin_ws", "crosslog", "unknownlog"}
 var decorations = []string{"ext", "xsig_unknown", "xsig_unknown_first", "xsig_otherlog", "xsig_dup", "stale_wit", "fake_wit"}
 
 // genUpdate draws one update op for log l with nb branches.
@@ -170,6 +170,23 @@ func genHistory(r *Rng, pf Profile, cfg *Config) []Op {
 			} else {
 				ops = append(ops, Op{K: "read", L: l})
 			}
+			continue
+		}
+		if pf.Mutations > 0 && len(cfg.Logs) > 1 && r.Chance(0.03) {
+			// a two-step forgery: log l's next text signed by another configured log's key and submitted to that log (refused for its
+			// origin), then the same text and signature bytes relabelled with l's key name and ID and submitted to l
+			d := uint64(r.Range(0, 4))
+			ops = append(ops, Op{K: "update", L: l, D: d, M: "prime_other"}, Op{K: "update", L: l, D: d, M: "forgedhash", MV: 2 * r.Uint64N(1000)})
+			i++
+			continue
+		}
+		if pf.BigSizes && r.Chance(0.04) {
+			// sizes beyond 2^63 (any log can sign them) followed by a tiny size claimed to extend them: arithmetic on
+			// the difference of two sizes must not wrap
+			big := Pick(r, uint64(1)<<63, uint64(1)<<63+5, maxU64, maxU64-1, uint64(1)<<63-1)
+			ops = append(ops, Op{K: "update", L: l, Sz: "abs", D: big, Old: Pick(r, "cur", "zero"), P: "empty", M: "garbage_root", MV: 5 * r.Uint64N(1000)})
+			ops = append(ops, Op{K: "update", L: l, Sz: "abs", D: uint64(r.IntN(6)), Old: "cur", P: Pick(r, "empty", "random"), PV: r.Uint64(), M: Pick(r, "", "garbage_root"), MV: 5 * r.Uint64N(1000)})
+			i++
 			continue
 		}
 		ops = append(ops, genUpdate(r, pf, l, nb))
